@@ -74,6 +74,16 @@ def is_circ_unrot(d):
     return d[0] == 'A' and d[2].real == d[2].imag and d[3] == 0
 
 
+def arc_branch(d1, d2):
+    """which branch of Arc.intersect serves the pair"""
+    a, o = (d1, d2) if d1[0] == 'A' else (d2, d1)
+    if o[0] == 'A':
+        return 'circle-circle' if is_circ_unrot(a) and is_circ_unrot(o) else 'arc-arc-subdivision'
+    if o[0] == 'L' and a[3] == 0:
+        return 'arc-line-algebraic'
+    return 'arc-u1transform'
+
+
 def seg_size(seg):
     """extent of a segment: largest distance between its defining points"""
     from svgpathtools import Arc
